@@ -218,6 +218,16 @@ pub fn c03_queries(tier: Tier) -> Vec<DpQuery> {
             v.push(DpQuery { sql, tables: tables.to_vec(), tags });
         }
     }
+    // aggregates of the GROUPING column itself next to aggregates of another column, plain and DISTINCT (each DISTINCT
+    // column is rewritten as its own sub-aggregation and gets its own part of the budget)
+    for (px, dx) in [("age", "id"), ("id", "age"), ("age", "age")] {
+        for (pa, ptag) in [("count", "count"), ("sum", "sum"), ("avg", "avg")] {
+            for (da, dtag) in [("count", "count-distinct"), ("sum", "sum-distinct")] {
+                let sql = format!("SELECT age, {pa}({px}) AS a0, {da}(DISTINCT {dx}) AS a1 FROM users GROUP BY age");
+                v.push(DpQuery { sql, tables: vec!["users"], tags: vec!["private-key", "aggregate-of-grouping-column", ptag, dtag] });
+            }
+        }
+    }
     // joins and set operations of two aggregating sub-queries (the mechanisms of BOTH sides must be recorded)
     for r in crate::sqlgen2::compose(2) {
         let binary_top = r.term.starts_with("J.") || r.term.starts_with("S.");
@@ -957,7 +967,15 @@ fn check_c03(c: &Compiled, r: &mut Report) {
             }
         }
     }
-    if groups.len() > 1 {
+    // (the per-DISTINCT-column sub-aggregations of ONE aggregation of the query share its budget: when the query has a
+    // single Reduce every Gaussian column belongs to it and the sum below applies)
+    fn count_reduces(r: &qrlew::relation::Relation) -> usize {
+        (if matches!(r, qrlew::relation::Relation::Reduce(_)) { 1 } else { 0 }) + r.inputs().iter().map(|i| count_reduces(i)).sum::<usize>()
+    }
+    if groups.len() > 1 && count_reduces(&c.original) == 1 {
+        r.reach("reach", "one-aggregation-split-per-distinct-column");
+    }
+    if groups.len() > 1 && count_reduces(&c.original) != 1 {
         r.reach("reach", "several-dp-aggregations");
         for (node, ratios) in &groups {
             let eps_sum = min_epsilon_sum(ratios, c.dp.delta);
